@@ -1,4 +1,18 @@
+//! Raft harness: C35 (replicated state deterministic / snapshot-equivalent / storage contract),
+//! C36 (restart recovery of the persistent store), C29 (role enforcement on every HTTP endpoint).
+//! One module per property; further modules (c37, c38) plug into the dispatch below.
+
+mod c29;
+mod c35;
+mod c36;
+mod util;
+
 fn main() {
     let args = mc::parse_args();
-    mc::machinery_error(&format!("{} is not built yet", args.prop));
+    match args.prop.as_str() {
+        "C29" => c29::run(&args),
+        "C35" => c35::run(&args),
+        "C36" => c36::run(&args),
+        other => mc::machinery_error(&format!("h_raft does not serve {other}")),
+    }
 }
